@@ -303,6 +303,21 @@ vh_case_tag(const char *tag)
     snprintf(vh->tag, sizeof vh->tag, "%s", tag);
 }
 
+#ifdef VH_FUZZ
+/* libFuzzer mode: an oracle disagreement is a crash with the witness record on stderr */
+void
+vh_fail(const char *check, const char *key, const char *fmt, ...)
+{
+    char msg[1800];
+    va_list ap;
+    va_start(ap, fmt);
+    vsnprintf(msg, sizeof msg, fmt, ap);
+    va_end(ap);
+    fprintf(stderr, "VH-VIOLATION check=%s key=%s msg=%s\n", check, key, msg);
+    fflush(stderr);
+    abort();
+}
+#else
 void
 vh_fail(const char *check, const char *key, const char *fmt, ...)
 {
@@ -337,6 +352,8 @@ vh_fail(const char *check, const char *key, const char *fmt, ...)
          vh->cur[0], vh->cur[1], vh->cur[2], vh->cur[3], vh->cur[4], vh->cur[5], vh->cur[6], vh->cur[7],
          jesc(vh->tag, e4, sizeof e4), jesc(msg, e1, sizeof e1));
 }
+
+#endif /* VH_FUZZ */
 
 void
 vh_broken(const char *fmt, ...)
@@ -529,6 +546,19 @@ vh_unit(const char *gen, uint64_t idx, vh_unit_fn fn, void *arg)
          jesc(vh->tag, e4, sizeof e4), errpath);
 }
 
+#ifdef VH_FUZZ
+__attribute__((constructor)) static void
+vh_fuzz_init(void)
+{
+    vh = mmap(NULL, sizeof(*vh), PROT_READ | PROT_WRITE, MAP_PRIVATE | MAP_ANONYMOUS, -1, 0);
+    if (vh == MAP_FAILED)
+        abort();
+    vh_cur = vh->cur;
+    vh_ncases = &vh->ncases;
+    vh_counters = vh->counters;
+    vh_nfail = &vh->nfail;
+}
+#else
 static void
 usage(void)
 {
@@ -619,3 +649,4 @@ main(int argc, char **argv)
          (double)(t1.tv_sec - t0.tv_sec) + (double)(t1.tv_nsec - t0.tv_nsec) / 1e9);
     return 0;
 }
+#endif /* VH_FUZZ */
